@@ -40,7 +40,7 @@ passed to every operation without undocumented errors and that every operation's
 passes validation — these are the `Valid` conclusions of the theorems of C01–C17, whose models
 live in other files (`C19_results_valid_full` below states the obligation).
 -/
-import AutomataVerif.Proofs.ValidateRules
+import AutomataVerif.Proofs.CorruptOps
 import AutomataVerif.Proofs.Freeze
 import AutomataVerif.Generated.Slots
 
@@ -255,6 +255,40 @@ local macro "other_dtm" : tactic => `(tactic| first
   | exact absurd hv' (hno .finalHasTransitions)
   | exact absurd hv' (hno .badTapeCount)
   | (right; rw [DTM.rules_stage]; decide))
+/-- other rules of `GNFA`: same class, or unaffected by the edit (hence not violated, the
+original being valid), or checked later. -/
+local macro "other_gnfa" : tactic => `(tactic| first
+  | exact Or.inl rfl
+  | exact absurd hv' (hno .badInitial)
+  | exact absurd hv' (hno .badFinal)
+  | exact absurd hv' (hno .initialEqualsFinal)
+  | exact absurd hv' (hno .missingRow)
+  | exact absurd hv' (hno .malformedLabel)
+  | exact absurd hv' (hno .labelLexerError)
+  | exact absurd hv' (hno .finalHasTransitions)
+  | exact absurd hv' (hno .missingEntry)
+  | exact absurd hv' (hno .unknownEndState)
+  | exact absurd hv' (hno .transitionIntoInitial)
+  | exact absurd hv' (hno .initialNoRow)
+  | (right; rw [GNFA.rules_stage]; decide))
+/-- other rules of `NTM`: same class, or unaffected by the edit (hence not violated, the
+original being valid), or checked later. -/
+local macro "other_ntm" : tactic => `(tactic| first
+  | exact Or.inl rfl
+  | exact absurd hv' (hno .inputNotProperSubset)
+  | exact absurd hv' (hno .badBlank)
+  | exact absurd hv' (hno .unknownTransitionState)
+  | exact absurd hv' (hno .badReadSymbol)
+  | exact absurd hv' (hno .unknownResultState)
+  | exact absurd hv' (hno .badWriteSymbol)
+  | exact absurd hv' (hno .badDirection)
+  | exact absurd hv' (hno .badInitial)
+  | exact absurd hv' (hno .initialNoRow)
+  | exact absurd hv' (hno .initialIsFinal)
+  | exact absurd hv' (hno .badFinal)
+  | exact absurd hv' (hno .finalHasTransitions)
+  | exact absurd hv' (hno .badTapeCount)
+  | (right; rw [NTM.rules_stage]; decide))
 /-- other rules of `MNTM`: same class, or unaffected by the edit (hence not violated, the
 original being valid), or checked later. -/
 local macro "other_mntm" : tactic => `(tactic| first
@@ -379,9 +413,206 @@ theorem C19_mntm_corrupt_tape_count (d : MNTM σ γ) (wf : d.WF) (n : Int) (hn :
   intro r' hv'
   cases r' <;> other_mntm
 
+
+/-- GNFA / initial state outside the state set → `InvalidStateError` (the first check). -/
+theorem C19_gnfa_corrupt_initial (g : GNFA σ α) (wf : g.WF) (q : σ) (hq : q ∉ g.states) :
+    ({ g with init := q } : GNFA σ α).validate = .error (.lib .invalidStateError) := by
+  have hno := (GNFA.wf_iff g).mp wf
+  refine GNFA.rules_correct.corrupt_raises _ .badInitial hq ?_
+  intro r' hv'
+  cases r' <;> other_gnfa
+
+/-- GNFA / final state outside the state set → `InvalidStateError`. -/
+theorem C19_gnfa_corrupt_final (g : GNFA σ α) (wf : g.WF) (q : σ) (hq : q ∉ g.states) :
+    ({ g with final := q } : GNFA σ α).validate = .error (.lib .invalidStateError) := by
+  have hno := (GNFA.wf_iff g).mp wf
+  refine GNFA.rules_correct.corrupt_raises _ .badFinal hq ?_
+  intro r' hv'
+  cases r' <;> other_gnfa
+
+/-- DPDA / initial state outside the state set → `InvalidStateError`. -/
+theorem C19_dpda_corrupt_initial (d : DPDA σ α γ) (wf : d.WF) (q : σ) (hq : q ∉ d.states) :
+    ({ d with init := q } : DPDA σ α γ).validate = .error (.lib .invalidStateError) := by
+  have hno := (DPDA.wf_iff d).mp wf
+  refine DPDA.rules_correct.corrupt_raises _ .badInitial hq ?_
+  intro r' hv'
+  cases r' <;> other_dpda
+
+/-- NPDA / initial state outside the state set → `InvalidStateError`. -/
+theorem C19_npda_corrupt_initial (d : NPDA σ α γ) (wf : d.WF) (q : σ) (hq : q ∉ d.states) :
+    ({ d with init := q } : NPDA σ α γ).validate = .error (.lib .invalidStateError) := by
+  have hno := (NPDA.wf_iff d).mp wf
+  refine NPDA.rules_correct.corrupt_raises _ .badInitial hq ?_
+  intro r' hv'
+  cases r' <;> other_npda
+
+/-- DTM / initial state outside the state set → `InvalidStateError`. -/
+theorem C19_dtm_corrupt_initial (d : DTM σ γ) (wf : d.WF) (q : σ) (hq : q ∉ d.states) :
+    ({ d with init := q } : DTM σ γ).validate = .error (.lib .invalidStateError) := by
+  have hno := (DTM.wf_iff d).mp wf
+  refine DTM.rules_correct.corrupt_raises _ .badInitial hq ?_
+  intro r' hv'
+  cases r' <;> other_dtm
+
+/-- NTM / initial state outside the state set → `InvalidStateError`. -/
+theorem C19_ntm_corrupt_initial (d : NTM σ γ) (wf : d.WF) (q : σ) (hq : q ∉ d.states) :
+    ({ d with init := q } : NTM σ γ).validate = .error (.lib .invalidStateError) := by
+  have hno := (NTM.wf_iff d).mp wf
+  refine NTM.rules_correct.corrupt_raises _ .badInitial hq ?_
+  intro r' hv'
+  cases r' <;> other_ntm
+
+/-- MNTM / initial state outside the state set → `InvalidStateError`. -/
+theorem C19_mntm_corrupt_initial (d : MNTM σ γ) (wf : d.WF) (q : σ) (hq : q ∉ d.states) :
+    ({ d with init := q } : MNTM σ γ).validate = .error (.lib .invalidStateError) := by
+  have hno := (MNTM.wf_iff d).mp wf
+  refine MNTM.rules_correct.corrupt_raises _ .badInitial hq ?_
+  intro r' hv'
+  cases r' <;> other_mntm
+
+/-- NTM / blank symbol outside the tape alphabet → `InvalidSymbolError`. -/
+theorem C19_ntm_corrupt_blank (d : NTM σ γ) (wf : d.WF) (b : γ) (hb : b ∉ d.tapeSyms) :
+    ({ d with blank := b } : NTM σ γ).validate = .error (.lib .invalidSymbolError) := by
+  have hno := (NTM.wf_iff d).mp wf
+  refine NTM.rules_correct.corrupt_raises _ .badBlank hb ?_
+  intro r' hv'
+  cases r' <;> other_ntm
+
 end
 
 end operators
+
+
+/-! ### row- and entry-level operators for the DFA: each of its six documented rules -/
+
+/-- DFA / the row of a state removed → `MissingStateError` (the first check; holds for every
+definition, valid or not). -/
+theorem C19_dfa_corrupt_missing_row (d : DFA σ α) (q : σ) (hq : q ∈ d.states) :
+    ({ d with trans := d.trans.filter (fun kv => decide (kv.1 ≠ q)) } : DFA σ α).validate =
+      .error (.lib .missingStateError) := by
+  have hv : DFA.rules.Violates ({ d with trans := d.trans.filter (fun kv => decide (kv.1 ≠ q)) } : DFA σ α)
+      .missingRow := by
+    refine ⟨q, hq, ?_⟩
+    simp only [akeys, List.mem_map, List.mem_filter, decide_eq_true_eq, not_exists, not_and]
+    intro kv hkv hk
+    exact hkv.2 hk
+  refine DFA.rules_correct.corrupt_raises _ .missingRow hv ?_
+  intro r' _
+  cases r' <;> first | exact Or.inl rfl | (right; rw [DFA.rules_stage]; decide)
+
+/-- DFA / a symbol removed from the row of a state of a valid complete DFA → `MissingSymbolError`. -/
+theorem C19_dfa_corrupt_missing_symbol (d : DFA σ α) (wf : d.WF) (hc : d.allowPartial = false)
+    (q : σ) (hq : q ∈ d.states) (a : α) (ha : a ∈ d.syms) :
+    (dropSymbol d q a).validate = .error (.lib .missingSymbolError) := by
+  have hno := (DFA.wf_iff d).mp wf
+  -- every row of the new table is a sub-row of a row of the old one
+  have hsub : ∀ kv' ∈ (dropSymbol d q a).trans, ∃ kv ∈ d.trans, kv'.1 = kv.1 ∧ ∀ e ∈ kv'.2, e ∈ kv.2 := by
+    intro kv' hkv'
+    simp only [dropSymbol, List.mem_map] at hkv'
+    obtain ⟨kv, hkv, rfl⟩ := hkv'
+    refine ⟨kv, hkv, ?_⟩
+    split
+    · exact ⟨rfl, fun e he => (List.mem_filter.mp he).1⟩
+    · exact ⟨rfl, fun e he => he⟩
+  have hv : DFA.rules.Violates (dropSymbol d q a) .missingSymbol := by
+    obtain ⟨kv, hkv, hk⟩ := List.mem_map.mp (wf.rows q hq)
+    refine ⟨hc, (kv.1, kv.2.filter fun e => decide (e.1 ≠ a)), ?_, a, ha, ?_⟩
+    · simp only [dropSymbol, List.mem_map]
+      exact ⟨kv, hkv, by simp [hk]⟩
+    · simp only [akeys, List.mem_map, List.mem_filter, decide_eq_true_eq, not_exists, not_and]
+      intro e he hk'
+      exact he.2 hk'
+  refine DFA.rules_correct.corrupt_raises _ .missingSymbol hv ?_
+  intro r' hv'
+  cases r'
+  · -- missingRow: the keys are unchanged
+    exfalso
+    obtain ⟨p, hp, hnp⟩ := hv'
+    rw [dropSymbol_keys] at hnp
+    exact hnp (wf.rows p hp)
+  · exact Or.inl rfl
+  · -- unknownSymbol: sub-rows of valid rows
+    exfalso
+    obtain ⟨kv', hkv', b, hb, hnb⟩ := hv'
+    obtain ⟨kv, hkv, _, hsubrow⟩ := hsub kv' hkv'
+    obtain ⟨e, he, rfl⟩ := List.mem_map.mp hb
+    exact hnb (wf.symsOk kv hkv e.1 (List.mem_map.mpr ⟨e, hsubrow e he, rfl⟩))
+  · exfalso
+    obtain ⟨kv', hkv', p, hp, hnp⟩ := hv'
+    obtain ⟨kv, hkv, _, hsubrow⟩ := hsub kv' hkv'
+    obtain ⟨e, he, rfl⟩ := List.mem_map.mp hp
+    exact hnp (wf.tgtOk kv hkv e.2 (List.mem_map.mpr ⟨e, hsubrow e he, rfl⟩))
+  · right; rw [DFA.rules_stage]; decide
+  · right; rw [DFA.rules_stage]; decide
+
+/-- DFA / `transitions[q][a] = t` with `t` not a state, in a valid DFA → `InvalidStateError`
+("unknown end state"). -/
+theorem C19_dfa_corrupt_end_state (d : DFA σ α) (wf : d.WF) (q : σ) (hq : q ∈ d.states)
+    (a : α) (ha : a ∈ d.syms) (t : σ) (ht : t ∉ d.states) :
+    (setEntry d q a t).validate = .error (.lib .invalidStateError) := by
+  have hv : DFA.rules.Violates (setEntry d q a t) .unknownEndState := by
+    obtain ⟨kv, hkv, hk⟩ := List.mem_map.mp (wf.rows q hq)
+    refine ⟨(kv.1, ainsert a t kv.2), ?_, t, ?_, ht⟩
+    · simp only [setEntry, List.mem_map]
+      exact ⟨kv, hkv, by simp [hk]⟩
+    · exact List.mem_map.mpr ⟨(a, t), ainsert_mem_self a t kv.2, rfl⟩
+  refine DFA.rules_correct.corrupt_raises _ .unknownEndState hv ?_
+  intro r' hv'
+  cases r'
+  · exfalso
+    obtain ⟨p, hp, hnp⟩ := hv'
+    rw [setEntry_keys] at hnp
+    exact hnp (wf.rows p hp)
+  · -- missingSymbol: rows only grow
+    exfalso
+    obtain ⟨hp, kv', hkv', b, hb, hnb⟩ := hv'
+    obtain ⟨kv, hkv, _, hkeys⟩ := setEntry_rows d q a t kv' hkv'
+    exact hnb (hkeys b (wf.complete hp kv hkv b hb))
+  · -- unknownSymbol: the new entry uses an input symbol
+    exfalso
+    obtain ⟨kv', hkv', b, hb, hnb⟩ := hv'
+    obtain ⟨kv, hkv, hent, _⟩ := setEntry_rows d q a t kv' hkv'
+    obtain ⟨e, he, rfl⟩ := List.mem_map.mp hb
+    rcases hent e he with rfl | he'
+    · exact hnb ha
+    · exact hnb (wf.symsOk kv hkv e.1 (List.mem_map.mpr ⟨e, he', rfl⟩))
+  · exact Or.inl rfl
+  · exact Or.inl rfl
+  · exact Or.inl rfl
+
+/-- DFA / `transitions[q][a] = t` with `a` not an input symbol, in a valid DFA →
+`InvalidSymbolError` ("unknown transition symbol"). -/
+theorem C19_dfa_corrupt_symbol (d : DFA σ α) (wf : d.WF) (q : σ) (hq : q ∈ d.states)
+    (a : α) (ha : a ∉ d.syms) (t : σ) (ht : t ∈ d.states) :
+    (setEntry d q a t).validate = .error (.lib .invalidSymbolError) := by
+  have hv : DFA.rules.Violates (setEntry d q a t) .unknownSymbol := by
+    obtain ⟨kv, hkv, hk⟩ := List.mem_map.mp (wf.rows q hq)
+    refine ⟨(kv.1, ainsert a t kv.2), ?_, a, ?_, ha⟩
+    · simp only [setEntry, List.mem_map]
+      exact ⟨kv, hkv, by simp [hk]⟩
+    · exact List.mem_map.mpr ⟨(a, t), ainsert_mem_self a t kv.2, rfl⟩
+  refine DFA.rules_correct.corrupt_raises _ .unknownSymbol hv ?_
+  intro r' hv'
+  cases r'
+  · exfalso
+    obtain ⟨p, hp, hnp⟩ := hv'
+    rw [setEntry_keys] at hnp
+    exact hnp (wf.rows p hp)
+  · exfalso
+    obtain ⟨hp, kv', hkv', b, hb, hnb⟩ := hv'
+    obtain ⟨kv, hkv, _, hkeys⟩ := setEntry_rows d q a t kv' hkv'
+    exact hnb (hkeys b (wf.complete hp kv hkv b hb))
+  · exact Or.inl rfl
+  · -- unknownEndState: the new entry leads to a state
+    exfalso
+    obtain ⟨kv', hkv', p, hp, hnp⟩ := hv'
+    obtain ⟨kv, hkv, hent, _⟩ := setEntry_rows d q a t kv' hkv'
+    obtain ⟨e, he, rfl⟩ := List.mem_map.mp hp
+    rcases hent e he with rfl | he'
+    · exact hnp ht
+    · exact hnp (wf.tgtOk kv hkv e.2 (List.mem_map.mpr ⟨e, he', rfl⟩))
+  · right; rw [DFA.rules_stage]; decide
+  · right; rw [DFA.rules_stage]; decide
 
 /-! ## C. tie to the source: raise sites, order of checks, literals -/
 
